@@ -23,6 +23,8 @@ Check(e) ==
       [] e.kind = "rewrite" -> RewriteContract(e)
       [] e.kind = "cnf" -> CnfContract(e)
       [] e.kind = "detect" -> DetectContract(e)
+      [] e.kind = "walk" -> WalkTraceContract(e)
+      [] e.kind = "scale" -> ScaleContract(e)
       [] e.kind = "fm_hist" -> FMHistoryContract(e)
       [] e.kind = "normalize" -> NormalizeContract(e)
       [] e.kind = "script_hist" -> ScriptHistoryContract(e)
